@@ -17,6 +17,10 @@ _MUT = os.path.realpath(REPO) != "/repo"
 # demonstration runs against a mutant worktree never touch the real evidence
 EVIDENCE_DIR = os.path.join(VERIF, "evidence_mut" if _MUT else "evidence")
 REPLAY_DIR = os.path.join(VERIF, "replays_mut" if _MUT else "replays")
+if os.environ.get("VERIF_CHILD") == "1":
+    # child of a thorough run (other PYTHONHASHSEED): never overwrite the
+    # parent's evidence
+    EVIDENCE_DIR = os.path.join(VERIF, "evidence_child")
 FINDINGS_FILE = os.path.join(VERIF, "known_findings.json")
 SCHEMA_FILE = os.path.join(VERIF, "schema", "EVIDENCE.schema.json")
 
@@ -260,6 +264,34 @@ def in_child(fn, *args):
     if err is not None:
         raise HarnessFault("child failed:\n" + err)
     return res
+
+
+def hashseed_children(pid, run, seeds=("1", "7")):
+    """The string-hash seed is an environment answer (set/dict iteration
+    order): repeat the quick exploration in child processes under other
+    seeds and fold their verdicts into this run."""
+    import subprocess
+    out = []
+    if os.environ.get("VERIF_CHILD") == "1":
+        return out
+    for sv in seeds:
+        env = dict(os.environ, PYTHONHASHSEED=sv, VERIF_CHILD="1")
+        p = subprocess.run([sys.executable, os.path.join(VERIF, "check"), pid,
+                            "--tier", "quick"], env=env, capture_output=True,
+                           text=True)
+        sigs = [ln.split("violation ")[1].split(": ")[0]
+                for ln in p.stdout.splitlines() if "] violation " in ln]
+        out.append({"PYTHONHASHSEED": sv, "exit": p.returncode,
+                    "violations": sigs[:10]})
+        if p.returncode == 2:
+            raise HarnessFault(f"hash-seed child {sv} failed:\n"
+                               + p.stdout[-800:])
+        for ln in p.stdout.splitlines():
+            if "] violation " in ln:
+                sig = ln.split("violation ")[1].split(": ")[0]
+                run.violation(sig, f"(PYTHONHASHSEED={sv}) " + ln[:300],
+                              {"hashseed": sv})
+    return out
 
 
 def import_aurel():
